@@ -80,7 +80,7 @@ samples `a`, `b` of the response history, and count `1` or `1/2` -/
 theorem cyclesOf_spec (tol : α) (y : List α) (cyc : List (α × α)) (h : cyclesOf tol y = some cyc) :
     ∀ d ∈ cyc, (∃ a ∈ y, ∃ b ∈ y, d.1 = |a - b| / 2) ∧ (d.2 = 1 ∨ d.2 = 1 / 2) := by
   unfold cyclesOf at h
-  cases hm : Findap.findapDef tol y with
+  cases hm : Findap.findapDefFix tol y with
   | none => rw [hm] at h; cases h
   | some m =>
       rw [hm] at h
